@@ -174,7 +174,7 @@ impl C18 {
   /// rows by scalar index, index vector and logical mask
   fn row_selection(&mut self, unit: u64, out: &mut WorkerOut) {
     let nrows = 1 + unit as usize;
-    if nrows > self.tier.pick(3, 4) { return; }
+    if nrows > self.tier.pick(4, 5) { return; }
     let t = Tbl { cols: vec!["k", "a"], rows: (0..nrows).map(|i| vec![i as i64 + 1, 10 * (i as i64 + 1)]).collect() };
     let mut s = Session::new();
     let dt = format!("T := {}", literal(&t));
@@ -205,6 +205,12 @@ impl C18 {
     };
     for k in 0..=nrows + 1 { let w = if k >= 1 && k <= nrows { Some(vec![k - 1]) } else { None }; sel(format!("{}", k), w, true, "scalar", &mut s, out); }
     for a in 0..=nrows + 1 { for b in 0..=nrows + 1 { let ok = a >= 1 && a <= nrows && b >= 1 && b <= nrows; sel(format!("[{} {}]", a, b), if ok { Some(vec![a - 1, b - 1]) } else { None }, false, "vector", &mut s, out); } }
+    // every index vector of length 3 over 1..n and, for n = 4, of length 4 (permuted, repeated, descending, contiguous)
+    if nrows >= 3 {
+      let mut vecs: Vec<Vec<usize>> = vec![];
+      for a in 1..=nrows { for b in 1..=nrows { for c in 1..=nrows { vecs.push(vec![a, b, c]); if nrows == 4 { for d in 1..=nrows { vecs.push(vec![a, b, c, d]); } } } } }
+      for v in vecs { sel(format!("[{}]", v.iter().map(|x| x.to_string()).collect::<Vec<_>>().join(" ")), Some(v.iter().map(|x| x - 1).collect()), false, "vector", &mut s, out); }
+    }
     for l in nrows.saturating_sub(1).max(2)..=nrows + 1 { for bits in 0..(1u32 << l) {
       let m: Vec<bool> = (0..l).map(|i| bits >> i & 1 == 1).collect();
       let ok = l == nrows && m.iter().any(|x| *x);
@@ -221,12 +227,12 @@ impl Check for C18 {
   fn unit_budget(&self, _t: Tier) -> Duration { Duration::from_secs(120) }
   fn drive(&mut self, tier: Tier, cfg: &PoolCfg, rep: &mut Report) {
     rep.rule = format!("9 schema pairs (lhs columns from {{k,j,a}}, rhs from {{k,j,b}}: 0, 1 or 2 shared names) x every lhs table x every rhs table with 1..{} rows (key cells over {{1,2}}, row-unique payloads, so duplicates and non-matching keys all occur) x inner, left/right/full outer, left semi, left anti x symbol and word form, plus 0-row operands produced by an anti-join; \
-      row selection on tables of 1..{} rows by every scalar index 0..n+1, every index pair, every mask of length n-1..n+1; the reference is a nested-loop join on lists of rows compared as multisets keyed by column name incl. which columns are optional; evaluations = statements; non-trivial = judged statements", self.maxrows(), tier.pick(3, 4));
+      row selection on tables of 1..{} rows by every scalar index 0..n+1, every index pair, every index vector of length 3 (and 4 for n = 4), every mask of length n-1..n+1; the reference is a nested-loop join on lists of rows compared as multisets keyed by column name incl. which columns are optional; evaluations = statements; non-trivial = judged statements", self.maxrows(), tier.pick(4, 5));
     rep.assumptions = vec!["row order of a join, column order and shared columns of different kinds are not judged".into()];
     rep.cov("bounds", json!({"schema_pairs": 9, "max_rows": self.maxrows()}));
     let mut jobs = range_jobs("", 9 * 256, 1);
     jobs.retain(|j| { let ai = (j.lo % 256) as usize; ai < 1 + 4 + 16 + 64 + 84 });
-    jobs.extend((0..4).map(|u| Job { payload: String::new(), lo: 9 * 256 + u, hi: 9 * 256 + u + 1 }));
+    jobs.extend((0..5).map(|u| Job { payload: String::new(), lo: 9 * 256 + u, hi: 9 * 256 + u + 1 }));
     drive_ranges(cfg, rep, jobs);
     if rep.out.nontrivial < 1000 { rep.vacuity.push("too few judged joins".into()); }
   }
